@@ -127,3 +127,20 @@ Fixpoint enc_rose_plain (t : rose N) : jt :=
   | RA n => JN n
   | RL l => JL (map enc_rose_plain l)
   end.
+
+(* tagged nested lists with string leaves: [0, items] | [1, str] *)
+Fixpoint dec_rose_str (t : jt) : option (rose str) :=
+  match t with
+  | JL [JN 1; s] => s' <~ get_str s ;; Some (RA s')
+  | JL [JN 0; JL l] =>
+      l' <~ (fix go (l : list jt) : option (list (rose str)) :=
+               match l with
+               | [] => Some []
+               | x :: r => match dec_rose_str x, go r with
+                           | Some x', Some r' => Some (x' :: r')
+                           | _, _ => None
+                           end
+               end) l ;;
+      Some (RL l')
+  | _ => None
+  end.
